@@ -1020,7 +1020,11 @@ class Interp:
 
     def s_Import(self, s):
         for a in s.names:
-            self.st.assigned[-1].add((a.asname or a.name).split('.')[0])
+            name = (a.asname or a.name)
+            name = name if a.asname else name.split('.')[0]
+            if self.cur.is_module:
+                continue
+            self.setvar(name, self.av_of_resolved(self.ix.resolve_in_func(self.cur, name), s))
 
     s_ImportFrom = s_Import
 
@@ -1344,7 +1348,27 @@ class Interp:
                 self.consume_gen(tag[4:], node)
         if 'set' in it.t:
             self.nondet('set-iteration', self.origin_id(), (self.site(node),))
-        return AV(self.ch(it.o, '[]'), {x for x in it.t if x.startswith(('func:',))}, it.why)
+        o, tags = self.elem_of(it, node, 'iter')
+        return AV(o, {x for x in it.t if x.startswith(('func:',))} | tags, it.why)
+
+    def elem_of(self, av, node, how):
+        """element origins of iterating / subscripting `av` (through __iter__/__getitem__ of repository classes)"""
+        o = set(self.ch(av.o, '[]'))
+        tags = set()
+        typed = False
+        for t in sorted(av.t):
+            if t.startswith(('cls:', 'sub:')):
+                ci = self.ix.classes.get(t[4:])
+                m = self.ix.lookup_method(ci, '__iter__' if how == 'iter' else '__getitem__') if ci else None
+                if m is not None and m.fid not in self.inl:
+                    typed = True
+                    r = self.apply_summary(m, {m.params[0]: av}, node, note='implicit ')
+                    o |= self.ch(r.o, '[]') if how == 'iter' else r.o
+                    tags |= {x for x in r.t if not x.startswith('gen:')}
+        if not typed and not (av.t & {'list', 'tuple', 'dict', 'set', 'genexp', 'str', 'dictlit', 'file'}):
+            # object of unknown class allocated here (result of a call): its items may be anything it holds
+            o |= self.desc([x for x in av.o if x[0][0] == 's'])
+        return frozenset(o), tags
 
     def consume_gen(self, fid, node):
         g = self.ix.funcs.get(fid)
@@ -1593,10 +1617,12 @@ class Interp:
     def e_Subscript(self, e):
         b = self.ev(e.value)
         self.ev(e.slice)
-        if isinstance(e.slice, ast.Slice):
+        typed = any(t.startswith(('cls:', 'sub:')) for t in b.t)
+        if isinstance(e.slice, ast.Slice) and not typed:
             s = self.fresh(e, 'slice')
-            self.add_edge(s, self.ch(b.o, '[]'), ('[]',), self.site(e))
-            return AV({(s, ())}, b.t & {'list', 'str'})
+            o, _ = self.elem_of(b, e, 'item')
+            self.add_edge(s, o, ('[]',), self.site(e))
+            return AV({(s, ())}, (b.t & {'list', 'str'}) or {'list'})
         # visible dict with a non-constant key: KeyError unless guarded by `key in dict`
         if 'dictlit' in b.t and not isinstance(e.slice, ast.Constant) and isinstance(e.ctx, ast.Load):
             fact = (ast.dump(e.slice), ast.dump(e.value))
@@ -1604,7 +1630,8 @@ class Interp:
             if not known:
                 self.raise_exc('KeyError', self.origin_id(), '', (self.site(e, 'dict lookup `{}`'.format(ast.unparse(e)[:60])),))
         keep = {x for x in b.t if x.startswith(('func:', 'dictlit'))}
-        return AV(self.ch(b.o, '[]'), keep, b.why)
+        o, tags = self.elem_of(b, e, 'item')
+        return AV(o, keep | tags, b.why)
 
     def e_Starred(self, e):
         b = self.ev(e.value)
